@@ -45,6 +45,14 @@ var c10Shapes = []c10Shape{
 func lv(l security.SecurityLevel) string { return string(l)[:3] }
 
 func c10One(res *vlib.Result, ca, sa, ce, se security.SecurityLevel, sh c10Shape, commonCipher bool, withCmd bool) {
+	c10Run(res, ca, sa, ce, se, sh, commonCipher, withCmd, false)
+}
+
+// c10Run: with second=true the server resolves the command's policy through
+// ServerConfigForCommand, which hands back ONE policy object for every
+// connection (as a server with a policy table does), and the connection judged
+// is the second one served with those same objects.
+func c10Run(res *vlib.Result, ca, sa, ce, se security.SecurityLevel, sh c10Shape, commonCipher bool, withCmd bool, second bool) {
 	res.Evals++
 	cc := []security.CryptoMethod{security.CryptoAES}
 	sc := []security.CryptoMethod{security.CryptoAES}
@@ -59,8 +67,30 @@ func c10One(res *vlib.Result, ca, sa, ce, se security.SecurityLevel, sh c10Shape
 	if withCmd {
 		ccfg.Command = 5
 	}
-	r := hsRun(hsOpts{ClientCfg: ccfg, ServerCfg: scfg, App: true})
+	var hook func(int) *security.SecurityConfig
+	if second {
+		per := baseCfg(sa, se, sh.s, sc, true)
+		hook = func(c int) *security.SecurityConfig {
+			if c == 5 {
+				return per
+			}
+			return nil
+		}
+		c0 := baseCfg(ca, ce, sh.c, cc, false)
+		if sh.noTok {
+			c0.Token = ""
+		}
+		c0.Command = 5
+		r0 := hsRun(hsOpts{ClientCfg: c0, ServerCfg: scfg, ServerCfgForCmd: hook, App: true})
+		if r0.S.Neg != nil {
+			security.GetSessionCache().Invalidate(r0.S.Neg.SessionId)
+		}
+	}
+	r := hsRun(hsOpts{ClientCfg: ccfg, ServerCfg: scfg, ServerCfgForCmd: hook, App: true})
 	id := fmt.Sprintf("auth=%s/%s enc=%s/%s methods=%s cipher=%v cmd=%v", lv(ca), lv(sa), lv(ce), lv(se), sh.name, commonCipher, withCmd)
+	if second {
+		id += " (second connection; policy from one shared per-command object)"
+	}
 	cell := fmt.Sprintf("auth=%s/%s", lv(ca), lv(sa))
 	ecell := fmt.Sprintf("enc=%s/%s", lv(ce), lv(se))
 	if r.Timeout {
@@ -139,7 +169,7 @@ func c10One(res *vlib.Result, ca, sa, ce, se security.SecurityLevel, sh c10Shape
 func C10Plan() *vlib.Plan {
 	p := &vlib.Plan{
 		Property: "C10", Level: "model_checking",
-		Rule:   "E-ENUM: full 4^4 matrix of (client auth, server auth, client enc, server enc) levels x method-list shapes (same, reversed, disjoint, empty either side, unimplemented first/only, token with/without a usable token) x {common cipher, none} x {command, auth-only}; each cell runs two real endpoints over an in-memory pipe with a passive frame recorder. Oracle = decision table written from the property text (fail/succeed, authentication runs, encryption on, explicit denial) + agreement of both reports + ping/pong. state = policy cell outcome class; transitions = handshakes executed.",
+		Rule:   "E-ENUM: full 4^4 matrix of (client auth, server auth, client enc, server enc) levels x method-list shapes (same, reversed, disjoint, empty either side, unimplemented first/only, token with/without a usable token) x {common cipher, none} x {command, auth-only}; each cell runs two real endpoints over an in-memory pipe with a passive frame recorder; cells with a command and a common cipher are also judged on the SECOND connection of a server that resolves the command's policy through ServerConfigForCommand returning one shared object. Oracle = decision table written from the property text (fail/succeed, authentication runs, encryption on, explicit denial) + agreement of both reports + ping/pong. state = policy cell outcome class; transitions = handshakes executed.",
 		Assume: []string{"CLAIMTOBE, TOKEN and the unimplemented PASSWORD stand for the method alphabet (SSL/KERBEROS/SCITOKENS cannot complete offline)"},
 	}
 	p.Gen = func(tier string, yield func(vlib.Case)) {
@@ -167,6 +197,10 @@ func C10Plan() *vlib.Plan {
 										}
 										c10One(res, ca, sa, ce, se, sh, common, cmd)
 										res.Transitions++
+										if cmd && common {
+											c10Run(res, ca, sa, ce, se, sh, common, cmd, true)
+											res.Transitions += 2
+										}
 									}
 								}
 							}
